@@ -1,4 +1,6 @@
 import MgpuModel.Util
+import MgpuModel.C02Wf
+import MgpuModel.C02Lds
 /-!
 C02 — timing mode is functionally transparent.  Component models, each a pair
 (emulator side, timing side):
@@ -535,6 +537,8 @@ def handle (line : String) : String :=
   | "c02" :: "st" :: t => handleSt t
   | "c02" :: "sm" :: t => handleSm t
   | "c02" :: "cnt" :: t => handleCnt t
+  | "c02" :: "wf" :: t => Wf.handleWf t
+  | "c02" :: "lds" :: t => Lds.handleLds t
   | _ => "bad"
 
 end C02
